@@ -121,6 +121,9 @@ class Ctx(object):
         return Sc(z3.Real(name))
 
     def int(self, name):
+        fixed = getattr(self.interp, 'concrete_ints', None)
+        if fixed and name in fixed:
+            return fixed[name]          # small-scope concretisation of an array length (sedvc/concretize.py)
         return Sc(z3.Int(name))
 
     def bool(self, name):
@@ -380,6 +383,7 @@ class Contract(object):
             st.oblige('%s/lemma.%s.hypothesis' % (sn, k), hyp, kind='lemma')
             st.assume(concl)
         old_st = st.fork()
+        self._entry_args, self._entry_state = args, old_st
         tracked = self._tracked(st, args)
         interp._pending_forks = []
         interp.assume_pre = tuple(getattr(self, 'assume_pre_of', ()))
